@@ -34,6 +34,105 @@ def tie_reduce_src():
     return TIE_REDUCE.replace("@TIES@", "\n".join(ties)).replace("@THMS@", "\n".join(thms))
 
 
+TIE_ALLANY = """From Coq Require Import List ZArith Bool.
+From ND Require Import Base.Tensor Ndx.Reduce Ndx.ReduceFacts Ndx.ReduceMore Ndx.ReduceMoreFacts.
+From G Require Import GenAllAny.
+(* what the source text of all / any says now (inner step, reducer, outer comparison) == the model's forms *)
+Lemma tie_num_all : gen_num_all = all_form. Proof. reflexivity. Qed.
+Lemma tie_num_any : gen_num_any = any_form. Proof. reflexivity. Qed.
+Lemma tie_bool_all : gen_bool_all = all_form. Proof. reflexivity. Qed.
+Lemma tie_bool_any : gen_bool_any = any_form. Proof. reflexivity. Qed.
+(* hence, for the functions as written today, every tensor / rank / extent (0 included) / valid axis form: *)
+Theorem C10_all_as_written : forall (t : tensor Z) axis keep, axis_valid (length (shape t)) axis ->
+  interp_num gen_num_all t axis keep = np_all t axis keep.
+Proof. intros. rewrite tie_num_all, interp_all_form. now apply ndx_all_is_np_all. Qed.
+Theorem C10_any_as_written : forall (t : tensor Z) axis keep, axis_valid (length (shape t)) axis ->
+  interp_num gen_num_any t axis keep = np_any t axis keep.
+Proof. intros. rewrite tie_num_any, interp_any_form. now apply ndx_any_is_np_any. Qed.
+Theorem C10_all_bool_as_written : forall (t : tensor bool) axis keep, axis_valid (length (shape t)) axis ->
+  interp_bool gen_bool_all t axis keep = np_reduce andb true t axis keep true.
+Proof. intros. rewrite tie_bool_all. now apply interp_bool_all. Qed.
+Theorem C10_any_bool_as_written : forall (t : tensor bool) axis keep, axis_valid (length (shape t)) axis ->
+  interp_bool gen_bool_any t axis keep = np_reduce orb false t axis keep false.
+Proof. intros. rewrite tie_bool_any. now apply interp_bool_any. Qed.
+Print Assumptions C10_all_as_written.
+Print Assumptions C10_any_bool_as_written.
+"""
+
+
+def more_cases(rnd, n):
+    """all / any / argmax / argmin / cumulative_sum on int64 tensors for the in-Coq correspondence."""
+    cases = []
+    fns = ["all", "any", "argmax", "argmin", "cumulative_sum"]
+    while len(cases) < n:
+        f = fns[len(cases) % 5]
+        sh = ops.rand_shape(rnd, 4, zero_p=0.2 if f in ("all", "any") else 0.08, extents=(1, 2, 3))
+        r = len(sh)
+        keep = rnd.random() < 0.5
+        vals = [0, 0, 1, -1, 2, 3] if f in ("all", "any") else list(range(-3, 4))
+        data = [rnd.choice(vals) for _ in range(ops.prod(sh))]
+        x = {"dtype": "int64", "shape": sh, "data": data}
+        meta = {"func": f, "keep": keep, "dtype": "int64", "dclass": "int"}
+        if f in ("all", "any"):
+            ax = families.rand_axis(rnd, r)
+            impl = f"out = ndx.{f}(x, axis={ax!r}, keepdims={keep})"
+        elif f in ("argmax", "argmin"):
+            ax = None if (r == 0 or rnd.random() < 0.3) else rnd.randint(-r, r - 1)
+            red = sh if ax is None else [sh[ax]]
+            if any(e == 0 for e in red):
+                continue            # NumPy: "attempt to get argmax of an empty sequence"
+            impl = f"out = ndx.{f}(x, axis={ax!r}, keepdims={keep})"
+        else:
+            if r == 0:
+                continue            # CumSum needs rank >= 1
+            ax = None if (r == 1 and rnd.random() < 0.4) else rnd.randint(-r, r - 1)
+            keep = rnd.random() < 0.5          # include_initial
+            meta["keep"] = keep
+            impl = f"out = ndx.cumulative_sum(x, axis={ax!r}, include_initial={keep})"
+        meta["axis"] = ax
+        cases.append({"id": f"mc-{len(cases)}", "inputs": {"x": x}, "impl": impl, "oracle": None, "eager": True, "lazy_subsets": [], "meta": meta})
+    return cases
+
+
+def in_coq_more(ctx, rnd, n):
+    cases = more_cases(rnd, n)
+    res = core.run_cases("harness.h_ops", cases, workers=14, per_case_timeout=120)
+    lines, kept = [], []
+    z = lambda v: f"({int(v)})%Z"
+    for c in cases:
+        r = res.get(c["id"]) or {}
+        e = r.get("eager")
+        m = c["meta"]
+        if not e or "ok" not in e or "data" not in e["ok"]:
+            ctx.finding(family.attrs_of(c, "raises", "eager"), f"{c['impl']} on int64 {c['inputs']['x']['shape']}: {str(e)[:200]}", family.replay_of(c, r, "eager"))
+            continue
+        o = e["ok"]
+        fn = {"all": "MAll", "any": "MAny", "argmax": "MArgmax", "argmin": "MArgmin"}.get(m["func"]) or f"(MCumsum {'true' if m['keep'] else 'false'})"
+        ax = m["axis"]
+        axspec = coq_axis(ax) if m["func"] in ("all", "any") else "AxNone"
+        ax1 = "None" if (ax is None or m["func"] in ("all", "any")) else f"(Some {z(ax)})"
+        lines.append("  {| mc_fn := %s; mc_shape := [%s]; mc_data := [%s]; mc_axis := %s; mc_axis1 := %s; mc_keep := %s; mc_oshape := [%s]; mc_odata := [%s] |}" % (
+            fn, "; ".join(map(str, c["inputs"]["x"]["shape"])), "; ".join(z(v) for v in c["inputs"]["x"]["data"]), axspec, ax1,
+            "true" if m["keep"] else "false", "; ".join(map(str, o["shape"])), "; ".join(z(v) for v in o["data"])))
+        kept.append((c, r))
+        ctx.count(("mc", c["impl"], tuple(c["inputs"]["x"]["shape"]), tuple(c["inputs"]["x"]["data"])), nontrivial=True)
+    src = ("From Coq Require Import List ZArith String.\nFrom ND Require Import Base.Tensor Ndx.Reduce Ndx.ReduceCorr Ndx.ReduceMore Ndx.ReduceMoreCorr.\nImport ListNotations.\n"
+           "Definition cases : list mcase := [\n" + ";\n".join(lines) + "\n].\n"
+           'Eval vm_compute in ("BAD"%string, bad_idx mcase_ok cases 0).\n'
+           "Example corr_more : forallb mcase_ok cases = true.\nProof. vm_compute. reflexivity. Qed.\n")
+    f = ctx.work / "CorrReduceMore.v"
+    f.write_text(src)
+    ok, out = ctx.compile(f"T-io (in Coq): ndx.all/any/argmax/argmin/cumulative_sum on int64 tensors == model (counting trick over ReduceSum, ArgMax/ArgMin first occurrence incl. the axis=None path, CumSum + include_initial), {len(kept)} cases", f, kind="tie")
+    if not ok:
+        flat = re.sub(r"\s+", " ", out)
+        mm = re.search(r'\("BAD"(?:%string)?, \[(.*?)\]\)', flat)
+        for i in (re.findall(r"\d+", mm.group(1)) if mm else [])[:10]:
+            c, r = kept[int(i)]
+            ctx.finding(family.attrs_of(c, "model-mismatch", "eager"), f"{c['impl']} on shape {c['inputs']['x']['shape']} data {c['inputs']['x']['data'][:12]}: result {r['eager']['ok']['shape']} {r['eager']['ok']['data'][:8]} differs from the model (= NumPy by theorem)",
+                        family.replay_of(c, r, "eager"))
+    return ok
+
+
 def coq_axis(ax):
     z = lambda n: f"({n})%Z"
     if ax is None:
@@ -104,7 +203,7 @@ def run(ctx):
     rnd = random.Random(ctx.seed)
     ctx.trusted += ["tools/translate/gen_src.py (ast -> Gallina, fail-closed): dispatch table of _funcs.py/_array.py, axis prologue of sum/prod/min/max",
                     "coq/Ndx/Reduce.v `reduce` as the semantics of ONNX Reduce{Sum,Prod,Min,Max} (validated in Coq against implementation outputs on every run)"]
-    ctx.not_discharged += ["mean/var/std/cumulative_sum/argmax/argmin/all/any values: correspondence with NumPy only (their plumbing is in the dispatch tie)",
+    ctx.not_discharged += ["mean/var/std values: correspondence with NumPy only (their plumbing is in the dispatch tie); argmax/argmin/cumulative_sum: theorems on the modelled ONNX nodes + in-Coq correspondence, no T-src of their bodies",
                            "accumulator dtypes: checked by the correspondence (oracle dtype) only"]
     ctx.static_build()
     # ---- T-src -------------------------------------------------------------------------------
@@ -113,6 +212,7 @@ def run(ctx):
         (ctx.work / "GenDispatch.v").write_text(gen_src.emit_dispatch(rows, mrows))
         pro = gen_src.reduce_prologue()
         (ctx.work / "GenReduce.v").write_text(gen_src.emit_reduce(pro))
+        (ctx.work / "GenAllAny.v").write_text(gen_src.emit_allany(gen_src.allany_forms()))
         tsrc_ok = True
     except gen_src.Untranslatable as e:
         tsrc_ok = False
@@ -127,6 +227,12 @@ def run(ctx):
         f = ctx.work / "TieReduce.v"
         f.write_text(tie_reduce_src())
         ctx.compile("C10_{sum,prod,min,max}_axes_as_written: the prologue translated from today's source resolves axes as NumPy does (all ranks, all valid axis forms)", f, kind="theorem")
+        ok3, _ = ctx.compile("T-src: GenAllAny.v compiles", ctx.work / "GenAllAny.v")
+        fa = ctx.work / "TieAllAny.v"
+        fa.write_text(TIE_ALLANY)
+        oka, _ = ctx.compile("C10_{all,any}[_bool]_as_written: the (inner step, reducer, outer comparison) extracted from today's source of all/any in _numericimpl.py and _boolimpl.py is NumPy's all/any on every tensor (empty reductions included)", fa, kind="theorem")
+        if not oka:
+            hot += ["all", "any"]
         d = ctx.work / "TieDispatch.v"
         d.write_text("From Coq Require Import List String Bool.\nFrom ND Require Import Ndx.Dispatch.\nFrom G Require Import GenDispatch.\nImport ListNotations.\n"
                      'Eval vm_compute in ("BADF"%string, map d_public (filter (fun r => negb (drow_ok r)) dispatch)).\n'
@@ -143,6 +249,7 @@ def run(ctx):
             ctx.notes.append("dispatch rows violating the law: " + ", ".join(hot))
     # ---- in-Coq correspondence -----------------------------------------------------------------
     in_coq_corr(ctx, rnd, 240 if ctx.tier == "quick" else 1500)
+    in_coq_more(ctx, rnd, 300 if ctx.tier == "quick" else 2000)
     # ---- oracle sweep --------------------------------------------------------------------------
     n = 700 if ctx.tier == "quick" else 6000
     cases = families.reduction_cases(rnd, n, prefix="R")
